@@ -13,7 +13,7 @@ From Coq Require Import Lia.
 Open Scope N_scope.
 
 (* ---- the side condition ------------------------------------------------------------------------------------------- *)
-(* scalar values: null / booleans as emitted; numbers -?digits or -?digits.digits; strings that the emitter quotes
+(* scalar values: null / booleans as emitted; numbers -?digits(.digits)?([eE][+-]?digits)?; strings that the emitter quotes
    (needs_quotes, or an always-quote key) without a backslash directly before n / t (finding C04-escape-order).
    No restriction on the characters of a string is needed: the quoted-string scanner does not consult the oracle.
    (For non-ASCII strings `lines_of` presupposes NFC-stable text: each line is paired with itself.) *)
@@ -301,12 +301,28 @@ Lemma plain_quote s : plain (quote s) = true.
 Proof.
   unfold quote. rewrite plain_cons, plain_app. unfold plain at 1. rewrite escape_no_nl, escape_no_tab. reflexivity.
 Qed.
+Lemma plain_frac fr : frac_ok fr = true -> plain fr = true.
+Proof.
+  destruct fr as [|x f]; [reflexivity|]. cbn [frac_ok]. intros H. apply andb_true_iff in H as [Hx Hf].
+  apply N.eqb_eq in Hx. subst x. rewrite plain_cons, (plain_digs _ Hf). reflexivity.
+Qed.
+Lemma plain_exp ex : exp_ok ex = true -> plain ex = true.
+Proof.
+  destruct ex as [|e r]; [reflexivity|]. cbn [exp_ok]. intros H. apply andb_true_iff in H as [He H].
+  assert (P1 : negb (N.eqb c_nl e) && negb (N.eqb c_tab e) = true).
+  { unfold is_e in He. apply orb_true_iff in He as [He|He]; apply N.eqb_eq in He; subst e; reflexivity. }
+  rewrite plain_cons, P1. cbn [andb].
+  destruct r as [|c r']; [discriminate H|]. destruct (is_sign c) eqn:Es.
+  - unfold is_sign in Es. rewrite plain_cons, (plain_digs _ H).
+    apply orb_true_iff in Es as [Es|Es]; apply N.eqb_eq in Es; subst c; reflexivity.
+  - apply plain_digs. exact H.
+Qed.
 Lemma plain_num c : num_ok c = true -> plain c = true.
 Proof.
   unfold num_ok. destruct c as [|c0 cr]; [discriminate|].
   assert (B : forall s, num_body_ok s = true -> plain s = true).
-  { intros s H. destruct (num_body_shape _ H) as (d & Hd & [->|(f & Hf & ->)]); [apply plain_digs; exact Hd|].
-    rewrite plain_app, plain_cons, (plain_digs _ Hd), (plain_digs _ Hf). reflexivity. }
+  { intros s H. destruct (num_body_shape _ H) as (d & fr & ex & -> & Hd & Hfr & Hex).
+    rewrite !plain_app, (plain_digs _ Hd), (plain_frac _ Hfr), (plain_exp _ Hex). reflexivity. }
   destruct (N.eqb_spec c0 c_dash) as [->|_]; intros H; [|apply B; exact H].
   rewrite plain_cons, (B _ H). reflexivity.
 Qed.
